@@ -490,15 +490,35 @@ def walked(c, pid, binary, tag, n_traces, steps, clauses, classify, stale=False)
     if r is None:
         return
     cases, traces = r["cases"], r["traces"]
-    impl, restarts = run_harness(c, binary, cases, traces)
-    cuts = dict(c.sm_cut)
+    # A Stop delivered while the round entrance of an advance is pending AND the view update that caused the advance also
+    # carried a jump-ahead: on cancellation the real kernel still runs the rest of handleViewUpdate (handleJumpAhead) with
+    # the cancelled context - it panics (known finding jump-ahead-after-round-advance-panics) or writes the jumped-to
+    # round to its store while shutting down. The model's Stop does not run that suspended tail, so such a history is
+    # compared up to that Stop only (the harness stops the machine itself at the end of every history).
+    cuts = {}
+    for i, tr in enumerate(traces):
+        pend = False
+        for k, (ev, mo) in enumerate(tr):
+            if ev[0] in (3, 4, 1):
+                pend = False
+            elif ev[0] == 5 and tuple(ev[-2:]) != (0, 0) and any(list(x)[0] == 1 for x in mo[0]):
+                pend = True
+            elif ev[0] == 2 and pend:
+                cuts[i] = k
+                break
     for i, kk in cuts.items():
         traces[i] = traces[i][:kk]
-    if cuts:
+    c.coverage["histories_cut_at_a_stop_with_a_suspended_jump_ahead"] = len(cuts)
+    impl, restarts = run_harness(c, binary, cases, traces)
+    for i, kk in c.sm_cut.items():
+        cuts[i] = min(kk, cuts.get(i, kk))
+    for i, kk in cuts.items():
+        traces[i] = traces[i][:kk]
+    if c.sm_cut:
         key7 = WITNESS_KEYS[7][1]
-        c.coverage["histories_ended_by_a_shutdown_panic"] = len(cuts)
+        c.coverage["histories_ended_by_a_shutdown_panic"] = len(c.sm_cut)
         if pid == "C08":
-            i0 = sorted(cuts)[0]
+            i0 = sorted(c.sm_cut)[0]
             c.report(key7, WITNESS_KEYS[7][2] + " - here at shutdown: the context is cancelled while the round entrance of the advance is pending",
                      {"signer": cases[i0][0], "how": "bin/h_sm < replay input (the process dies while stopping)",
                       "harness_input": harness_input(cases[i0][0], traces[i0]), "trace": render(traces[i0], impl[i0])[-6:]})
